@@ -1388,6 +1388,12 @@ func c06gen(c *h.Ctx, yield func(*h.Case)) {
 				"c06 h.request 2", "c06 h.msg tm "+t2.desc(2, 1), "c06 h.msg tm "+t5.desc(2, 1), "c06 h.msg roster 1", "c06 h.msg roster 1", "c06 h.msg reqtree 2 1")
 			emit("history parked-then-response", ops)
 		case 9: // the real request path: a request that cannot be sent leaves nothing behind
+			if i/11 >= c.Pick(20, 150) {
+				// a failing send costs about half a second (5 connection attempts): bounded number
+				ops = append(ops, "c06 h.reqsend 1", resp(t1, 1, 1), "c06 h.reqsend 1", "c06 h.reqsend 2", "c06 h.msg reqtree 1 1")
+				emit("history request-path", ops)
+				continue
+			}
 			ops = append(ops, "c06 h.reqfail 1", resp(t1, 1, 1), "c06 h.msg tm "+t1.desc(1, 1), "c06 h.reqsend 1", "c06 h.reqfail 1", "c06 h.reqsend 1",
 				resp(t1, 1, 1), "c06 h.reqfail 1", "c06 h.reqsend 1", "c06 h.reqfail 2", "c06 h.msg roster 1", resp(t2, 2, 1), "c06 h.msg reqtree 2 1")
 			emit("history failed-request", ops)
@@ -1400,7 +1406,7 @@ func c06gen(c *h.Ctx, yield func(*h.Case)) {
 				alpha = append(alpha, fmt.Sprintf("c06 h.request %d", t.tid), resp(t, t.tid, t.ro.label), "c06 h.msg tm "+t.desc(t.tid, t.ro.id),
 					fmt.Sprintf("c06 h.msg reqtree %d %d", t.tid, r.Intn(2)), fmt.Sprintf("c06 h.unrequest %d", t.tid),
 					fmt.Sprintf("c06 h.reqsend %d", t.tid))
-				if t.tid == 1 {
+				if t.tid == 1 && i%3 == 0 {
 					alpha = append(alpha, "c06 h.reqfail 1") // a failing send costs 5 connection attempts (100 ms)
 				}
 			}
